@@ -1269,8 +1269,14 @@ _BTree_setstate(BTree *self, PyObject *state, int noval)
         }
         else
         {
-            if (!(SameType_Check(self, v) ||
-                  PyObject_IsInstance(v, (PyObject *)leaftype)))
+            int ok = SameType_Check(self, v);
+            if (!ok)
+            {
+                ok = PyObject_IsInstance(v, (PyObject *)leaftype);
+                if (ok < 0)
+                    return -1;
+            }
+            if (!ok)
             {
                 PyErr_Format(PyExc_TypeError,
                              "tree child %s is neither %s nor %s",
@@ -1289,7 +1295,10 @@ _BTree_setstate(BTree *self, PyObject *state, int noval)
     if (!firstbucket)
         firstbucket = (PyObject *)self->data->child;
 
-    if (!PyObject_IsInstance(firstbucket, (PyObject *)leaftype))
+    i = PyObject_IsInstance(firstbucket, (PyObject *)leaftype);
+    if (i < 0)
+        return -1;
+    if (!i)
     {
         PyErr_SetString(PyExc_TypeError,
                         "No firstbucket in non-empty BTree");
@@ -1412,10 +1421,16 @@ BTree__p_resolveConflict(BTree *self, PyObject *args)
     if (s[2] == NULL)
         return NULL;
 
-    if (PyObject_IsInstance((PyObject *)self, (PyObject *)&BTreeType))
-        x = _bucket__p_resolveConflict(OBJECT(&BucketType), s);
-    else
+    switch (PyObject_IsInstance((PyObject *)self, (PyObject *)&BTreeType))
+    {
+    case -1:
+        return NULL;
+    case 0:
         x = _bucket__p_resolveConflict(OBJECT(&SetType), s);
+        break;
+    default:
+        x = _bucket__p_resolveConflict(OBJECT(&BucketType), s);
+    }
 
     if (x == NULL)
         return NULL;
